@@ -145,6 +145,19 @@ except Exception as e:  # noqa
     miss.append(f'extract_calc: {e}')
     ks = None
 
+try:
+    import extract_task
+    try:
+        ts = extract_task.extract(open(os.path.join(src, 'task.py')).read())
+        ok.append('task_src')
+    except Exception as e:  # noqa
+        ts = extract_task.PINNED
+        miss.append(f'task_src: {e}')
+    vals['task_src'] = ts
+except Exception as e:  # noqa
+    miss.append(f'extract_task: {e}')
+    ts = None
+
 
 def write_if_changed(path, content):
     os.makedirs(os.path.dirname(path), exist_ok=True)
@@ -181,6 +194,8 @@ if ps is not None:
     write_if_changed(os.path.join(lean, 'PjVerif', 'Extracted', 'PassSrc.lean'), extract_pass.to_lean(ps))
 if ks is not None:
     write_if_changed(os.path.join(lean, 'PjVerif', 'Extracted', 'CalcSrc.lean'), extract_calc.to_lean(ks))
+if ts is not None:
+    write_if_changed(os.path.join(lean, 'PjVerif', 'Extracted', 'TaskSrc.lean'), extract_task.to_lean(ts))
 os.makedirs(os.path.join(verif, 'out'), exist_ok=True)
 write_if_changed(os.path.join(verif, 'out', 'extracted.json'), json.dumps(vals, indent=1))
 print(json.dumps({'ok': ok, 'miss': miss}))
